@@ -17,12 +17,12 @@ BATCH = 8
 RULE = ('one evaluation = one seeded simulated run of 2-4 contenders (threads sharing one cache object / own objects in one process / '
         'separate simulated processes; Cache or FanoutCache) each looping acquire -> critical section (seam yields + virtual sleep) -> '
         'release on a Lock, RLock (nested 1-3 deep), BoundedSemaphore (value 1-3) or a barrier-wrapped function, with optional '
-        'release-without-acquire attempts; a witness independent of the cache counts holders on every entry; the run must finish '
+        'release-without-acquire attempts; each contender uses explicit acquire/release or a with statement, and in seeded rounds the critical section (or the barrier-wrapped function) raises; a witness independent of the cache counts holders on every entry; the run must finish, the exception of the section must come out unchanged and the stored state must say free at the end '
         '(every waiter eventually acquires); non-trivial = at least one context switch inside a critical section or a contended '
         'acquire; distinct = SHA-256 of the seam event log')
 ASSUMPTIONS = ['polling acquire loops (1 ms virtual sleeps) are run with critical sections of at most a few virtual milliseconds',
                'lock keys carry no expiry in this check']
-PROBES = ('contended_acquire', 'nested_rlock', 'bad_release_refused', 'lock_wait', 'barrier_calls')
+PROBES = ('contended_acquire', 'nested_rlock', 'bad_release_refused', 'lock_wait', 'barrier_calls', 'with_statement', 'cs_raised')
 TECHNIQUE = 'deterministic simulation: seeded schedules of contenders with virtual-time polling; holder-count witness invariant checked at every critical-section entry; bounded-progress check'
 LEVEL_TEXT = ('seeded exploration of contender interleavings at seam granularity (and source lines for shared objects) with a witness '
               'invariant (holders <= 1, <= value for the semaphore, re-entrancy only by the owner) evaluated during the run, plus '
@@ -48,9 +48,17 @@ def gen_case(seed, tier):
         # processes whose main threads all have the same thread id - what fork() gives
         'forked': rng.random() < 0.25,
     }
+    # how each contender uses the primitive (explicit acquire/release or a with statement), and in which of its rounds the
+    # critical section raises: the primitive must be released exactly once on that path too
+    cfg['style'] = [rng.choice(('explicit', 'with')) for _ in range(n)]
+    cfg['raises'] = [[rng.random() < 0.2 for _ in range(cfg['iters'])] for _ in range(n)]
     if cfg['topology'] == 'shared':
         cfg['line_p'] = rng.choice((0.0, 0.0, 0.05))
     return {'seed': seed, 'cfg': cfg}
+
+
+class CsError(Exception):
+    """Raised inside the critical section in the rounds marked in cfg['raises']."""
 
 
 def run_case(case):
@@ -119,11 +127,13 @@ def run_case(case):
                 factory = lf
 
             @dc.barrier(cache, factory, name='the-barrier')
-            def work(name):
+            def work(name, boom=False):
                 enter(name)
                 critical(name)
                 leave(name)
                 probes['barrier_calls'] = probes.get('barrier_calls', 0) + 1
+                if boom:
+                    raise CsError(name)
                 return name
             return work
 
@@ -142,10 +152,17 @@ def run_case(case):
             def fn():
                 if kind == 'barrier':
                     work = make_barrier(cache)
-                    for _ in range(cfg['iters']):
+                    for it in range(cfg['iters']):
                         if cfg['think'][i]:
                             sim.sleep(cfg['think'][i])
-                        work(name)
+                        boom = bool(cfg.get('raises')) and cfg['raises'][i][it]
+                        try:
+                            got = work(name, boom)
+                            if boom or got != name:
+                                violations.append({'rule': 'C15/barrier-result', 'sig': 'barrier',
+                                                   'detail': 'barrier-wrapped call returned %r (raising round: %s)' % (got, boom)})
+                        except CsError:
+                            probes['cs_raised'] = probes.get('cs_raised', 0) + 1
                     return True
                 prim = inherited['copies'][i] if forked else make_prim(cache)
                 if cfg['bad_release'] and i == 0 and kind == 'rlock':
@@ -155,20 +172,54 @@ def run_case(case):
                                            'detail': 'release() of a %s that is not held did not raise' % kind})
                     except AssertionError:
                         probes['bad_release_refused'] = probes.get('bad_release_refused', 0) + 1
-                for _ in range(cfg['iters']):
+                style = cfg['style'][i] if cfg.get('style') else 'explicit'
+                for it in range(cfg['iters']):
                     if cfg['think'][i]:
                         sim.sleep(cfg['think'][i])
                     depth = cfg['nest'] if kind == 'rlock' else 1
-                    t0 = sim.step
-                    for dlevel in range(depth):
-                        prim.acquire()
-                        enter(name)
-                        if dlevel:
-                            probes['nested_rlock'] = 1
-                    critical(name)
-                    for dlevel in range(depth):
-                        leave(name)
-                        prim.release()
+                    boom = bool(cfg.get('raises')) and cfg['raises'][i][it]
+
+                    def held():
+                        critical(name)
+                        if kind == 'lock' and not prim.locked():
+                            violations.append({'rule': 'C15/locked-false-while-held', 'sig': kind,
+                                               'detail': '%s holds the lock and locked() answers False' % name})
+                        if boom:
+                            raise CsError(name)
+
+                    def nested(dlevel):
+                        with prim:
+                            enter(name)
+                            if dlevel:
+                                probes['nested_rlock'] = 1
+                            try:
+                                if dlevel + 1 < depth:
+                                    nested(dlevel + 1)
+                                else:
+                                    held()
+                            finally:
+                                leave(name)
+
+                    try:
+                        if style == 'with':
+                            probes['with_statement'] = probes.get('with_statement', 0) + 1
+                            nested(0)
+                        else:
+                            taken = 0
+                            try:
+                                for dlevel in range(depth):
+                                    prim.acquire()
+                                    taken += 1
+                                    enter(name)
+                                    if dlevel:
+                                        probes['nested_rlock'] = 1
+                                held()
+                            finally:
+                                for dlevel in range(taken):
+                                    leave(name)
+                                    prim.release()
+                    except CsError:
+                        probes['cs_raised'] = probes.get('cs_raised', 0) + 1
                 if cfg['bad_release'] and i == 1 and kind == 'rlock':
                     # after everything was released by this thread, one more release must be refused
                     try:
@@ -219,7 +270,24 @@ def run_case(case):
             want = cfg['n'] * cfg['iters'] * (cfg['nest'] if kind == 'rlock' else 1)
             if not violations and w['entries'] != want:
                 violations.append({'rule': 'C15/progress', 'sig': kind, 'detail': '%d entries, expected %d' % (w['entries'], want)})
-            # everything released: the primitive is free again
+            # everything released: the stored state of the primitive says "free"
+            if not violations:
+                c2 = make_cache()
+                if kind == 'barrier':
+                    key, pk = 'the-barrier', {'Lock': 'lock', 'RLock': 'rlock', 'BoundedSemaphore': 'sem'}[cfg['lock_factory']]
+                else:
+                    key, pk = ('the-sem' if kind == 'sem' else 'the-lock'), kind
+                state = c2.get(key, default='<absent>')
+                if pk == 'lock':
+                    is_free = state == '<absent>'
+                elif pk == 'rlock':      # (last owner, 0)
+                    is_free = state == '<absent>' or (isinstance(state, tuple) and len(state) == 2 and state[1] == 0)
+                else:
+                    is_free = state in ('<absent>', cfg['value'])
+                if not is_free:
+                    violations.append({'rule': 'C15/state-after-run', 'sig': pk,
+                                       'detail': 'every contender released, yet the stored state of the %s is %r' % (pk, state)})
+                c2.close()
             if not violations and kind in ('lock', 'rlock', 'sem'):
                 c2 = make_cache()
                 prim = make_prim(c2)
